@@ -565,3 +565,41 @@ pub proof fn lemma_nj_past_stable(w0: World, steps: Seq<NJOp>, k: int)
         }
     }
 }
+
+/// non-vacuity: a genesis world exists (`w_empty` of specs/votes) and minting a token through NonFungibleVotes is a
+/// valid first step from it
+pub proof fn lemma_nj_witness()
+    ensures nj_genesis(w_empty()),
+        nj_valid(w_empty(), seq![NJOp::Tok(NOp::SeqMint { to: Address { id: 1 } })]),
+{
+    broadcast use sdk_store;
+    let w0 = w_empty();
+    let a1 = Address { id: 1 };
+    let op = NOp::SeqMint { to: a1 };
+    let s1 = seq![NJOp::Tok(op)];
+    let s0 = s1.drop_last();
+    assert(s0.len() == 0);
+    let r0 = nj_run(w0, s0);
+    assert(r0.persistent == w0.persistent && r0.instance == w0.instance);
+    assert(counter(r0) == 0 && bal(r0, a1) == 0 && cur_owner(r0, 0).is_none());
+    assert(op_guard(r0, op));
+    let w1 = op_post(r0, op);
+    lemma_vs_op(r0, op);
+    lemma_vs_inv(r0, w1);
+    assert(cp_num(r0, t_total()) == 0);
+    assert(cp_num(w1, t_total()) == 0) by {
+        assert(iget(w1, VotesStorageKey::NumTotalSupplyCheckpoints) == iget(r0, VotesStorageKey::NumTotalSupplyCheckpoints));
+    }
+    assert(w1.ledger_seq == r0.ledger_seq);
+    assert(push_guard(w1, t_total(), CheckpointOp::Add, 1));
+    let m1 = xfer_from_post(w1, None, 1);
+    assert(v_units(w1, a1) == 0);
+    assert(v_units(m1, a1) == 0);
+    assert(v_delegatee(w1, a1).is_none());
+    assert(xfer_guard(w1, None, Some(a1), 1));
+    assert(s1.last() == NJOp::Tok(op));
+    assert(njop_guard(r0, s1.last()));
+    assert(nj_valid(w0, s0));
+    assert(nj_valid(w0, s1));
+    assert(s1 =~= seq![NJOp::Tok(NOp::SeqMint { to: Address { id: 1 } })]);
+}
